@@ -281,14 +281,33 @@ func c08RMW(c *Ctx) {
 		r.Unknown("O-3", fk+"#commands", c.P.Pos(fn.Pos()), "the variable that yaml.Unmarshal fills was not found")
 		return
 	}
-	isCellLoad := func(v ssa.Value) bool {
+	entry := fn.Params[1]
+	var isCellLoad func(v ssa.Value) bool
+	isCellLoad = func(v ssa.Value) bool {
 		if notebook != nil && v == notebook {
+			return true
+		}
+		// the decoded list kept in a plain variable: a merge of the list itself
+		// and append(list, entry)
+		if phi, ok := v.(*ssa.Phi); ok && notebook != nil {
+			for _, e := range phi.Edges {
+				if e == notebook {
+					continue
+				}
+				ap, ok := e.(*ssa.Call)
+				if !ok || ssau.CallName(ap) != "builtin.append" || ap.Common().Args[0] != notebook {
+					return false
+				}
+				el := appendedSingle(ap)
+				if el == nil || !(el == ssa.Value(entry) || paramCellLoad(el, entry)) {
+					return false
+				}
+			}
 			return true
 		}
 		u, ok := v.(*ssa.UnOp)
 		return ok && cell != nil && u.Op == token.MUL && u.X == ssa.Value(cell)
 	}
-	entry := fn.Params[1]
 	isEntry := func(v ssa.Value) bool {
 		// the parameter itself or a load of its spill cell
 		if v == ssa.Value(entry) {
